@@ -560,3 +560,75 @@ def mon_ldro(run, script, il, iab, ml):
         r26 = [e for e in ents if e['kind'] == 'R' and e['reg'] == 0x26]
         if r26 and (int(r26[-1]['data'], 16) & 0xf7) != (int(w26[-1]['data'], 16) & 0xf7):
             run.violation('automatic LDRO changed other bits of RegModemConfig3: %s -> %s' % (r26[-1]['data'], w26[-1]['data']), script)
+
+
+def mon_decode(run, script, il, iab, ml):
+    """C12, decoders: values returned by the getters equal the datasheet formulas applied to the
+    raw register bytes that the call read (taken from its SPI trace)"""
+    BW = {0: 7800, 1: 10400, 2: 15600, 3: 20800, 4: 31250, 5: 41700, 6: 62500, 7: 125000, 8: 250000, 9: 500000}
+    for l in il:
+        if not is_op(l):
+            continue
+        f = fields(l)
+        op = f['op']
+        rc = f.get('rc', '')
+        if not rc.startswith('0,'):
+            continue
+        ents = spi_entries(f.get('spi'))
+        if any(e['fault'] is not None for e in ents):
+            continue
+        reads = {e['reg']: int(e['data'], 16) for e in ents if e['kind'] == 'R'}
+        am = int(handle_of(f).get('am', '0'), 16)
+        val = rc.split(',', 1)[1]
+        if op == 'rx_get_frequency_error' and am == LORA and 0x28 in reads and 0x1d in reads:
+            run.cov['monitor_checks'] += 1
+            raw = reads[0x28] & 0xfffff
+            if raw & 0x80000:
+                raw -= 1 << 20
+            bw = BW.get(reads[0x1d] >> 4)
+            if bw is None:
+                continue
+            exact = Fraction(raw) * Fraction(2 ** 24, 32000000) * Fraction(bw, 500000)
+            got = int(val)
+            if abs(exact - got) > 1 + abs(exact) * Fraction(1, 2 ** 20):
+                run.violation('LoRa frequency error decoded as %d Hz, datasheet formula gives %.2f Hz (RegFei=%05x, BW %d Hz)' % (got, float(exact), reads[0x28], bw), script, {'line': l})
+        elif op == 'rx_get_frequency_error' and am in (FSK, OOK) and 0x1b in reads:
+            run.cov['monitor_checks'] += 1
+            raw = reads[0x1b] & 0xffff
+            if raw & 0x8000:
+                raw -= 1 << 16
+            exact = Fraction(raw) * Fraction(32000000, 2 ** 19)
+            got = int(val)
+            if abs(exact - got) > 1 + abs(exact) * Fraction(1, 2 ** 20):
+                run.violation('FSK AFC error decoded as %d Hz, formula gives %.2f Hz (raw %04x)' % (got, float(exact), reads[0x1b]), script, {'line': l})
+        elif op == 'lora_rx_get_packet_snr' and 0x19 in reads:
+            run.cov['monitor_checks'] += 1
+            raw = reads[0x19]
+            if raw >= 128:
+                raw -= 256
+            got = f32(int(val, 16))
+            if got != raw / 4.0:
+                run.violation('SNR decoded as %r, formula gives %r (raw %02x)' % (got, raw / 4.0, reads[0x19]), script, {'line': l})
+        elif op == 'rx_get_packet_rssi' and am == LORA and 0x1a in reads and 0x06 in reads:
+            run.cov['monitor_checks'] += 1
+            freq = Fraction(reads[0x06] * 32000000, 2 ** 19)
+            rssi = reads[0x1a] - (164 if freq < 525000000 else 157)
+            snr = reads.get(0x19)
+            if snr is not None:
+                s8 = snr - 256 if snr >= 128 else snr
+                if s8 < 0:
+                    rssi = int(rssi + s8 / 4.0)   # conversion back to int16 truncates toward zero
+            got = int(val)
+            if abs(freq - 525000000) > 200 and got != rssi:
+                run.violation('packet RSSI decoded as %d, formula gives %d (raw rssi %02x, snr %s)' % (got, rssi, reads[0x1a], snr), script, {'line': l})
+        elif op == 'fsk_ook_get_raw_temperature' and 0x3c in reads:
+            run.cov['monitor_checks'] += 1
+            v = reads[0x3c]
+            want = 255 - v if v & 0x80 else -v
+            if int(val) != want:
+                run.violation('raw temperature decoded as %s, formula gives %d (raw %02x)' % (val, want, v), script, {'line': l})
+        elif op == 'lora_get_bandwidth' and 0x1d in reads:
+            run.cov['monitor_checks'] += 1
+            bw = BW.get(reads[0x1d] >> 4)
+            if bw is not None and int(val) != bw:
+                run.violation('bandwidth decoded as %s, table gives %d' % (val, bw), script, {'line': l})
